@@ -311,6 +311,72 @@ func C19(r *h.Run) {
 		}
 	}
 
+	// ---- what the recovery function returns is what the client receives, whatever the shape of
+	// its chain: a handler panics with the error of a downstream call whose context had ended, the
+	// recovery function wraps it ----
+	for _, proto := range protos {
+		for _, kind := range []string{"unary", "server", "client"} {
+			for _, cause := range []error{context.DeadlineExceeded, context.Canceled, errors.New("plain")} {
+				for shape := 0; shape < 4; shape++ {
+					cfg := envCfg{Proto: proto}
+					handled := 0
+					panicVal := fmt.Errorf("downstream call: %w", cause)
+					recoverFn := func(_ context.Context, _ connect.Spec, _ http.Header, rv any) error {
+						handled++
+						e, _ := rv.(error)
+						switch shape {
+						case 0:
+							return connect.NewError(connect.CodeDataLoss, fmt.Errorf("recovered: %w", e))
+						case 1:
+							return fmt.Errorf("recovered: %w", connect.NewError(connect.CodeDataLoss, e))
+						case 2:
+							return errors.Join(connect.NewError(connect.CodeDataLoss, errors.New("recovered")), e)
+						default:
+							return fmt.Errorf("recovered: %w; and %w", connect.NewError(connect.CodeDataLoss, errors.New("inner")), e)
+						}
+					}
+					hopts := []connect.HandlerOption{connect.WithCodec(h.ToyCodec{}), connect.WithRecover(recoverFn)}
+					var handler *connect.Handler
+					switch kind {
+					case "unary":
+						handler = connect.NewUnaryHandler("/verif.Svc/M", func(context.Context, *connect.Request[h.Raw]) (*connect.Response[h.Raw], error) { panic(panicVal) }, hopts...)
+					case "server":
+						handler = connect.NewServerStreamHandler("/verif.Svc/M", func(_ context.Context, _ *connect.Request[h.Raw], st *connect.ServerStream[h.Raw]) error {
+							_ = st.Send(&h.Raw{B: []byte("m")})
+							panic(panicVal)
+						}, hopts...)
+					default:
+						handler = connect.NewClientStreamHandler("/verif.Svc/M", func(context.Context, *connect.ClientStream[h.Raw]) (*connect.Response[h.Raw], error) { panic(panicVal) }, hopts...)
+					}
+					unary := proto == "connect" && kind == "unary"
+					b := h.Frame(0, []byte("q"))
+					if unary {
+						b = []byte("q")
+					}
+					req := httptest.NewRequest(http.MethodPost, "/verif.Svc/M", bytes.NewReader(b))
+					req.ProtoMajor, req.ProtoMinor = 2, 0
+					req.Header.Set("Content-Type", cfg.contentType(kind == "unary"))
+					rec := httptest.NewRecorder()
+					escaped := safely(func() { handler.ServeHTTP(rec, req) })
+					in := map[string]any{"proto": proto, "kind": kind, "handler panics with": panicVal.Error(),
+						"recovery function returns": []string{"NewError(data_loss, fmt.Errorf(\"recovered: %w\", v))", "fmt.Errorf(\"recovered: %w\", NewError(data_loss, v))", "errors.Join(NewError(data_loss, ...), v)", "fmt.Errorf(\"recovered: %w; and %w\", NewError(data_loss, ...), v)"}[shape]}
+					r.Eval("recover_returns", fmt.Sprint(proto, kind, cause, shape))
+					peerKind := "server"
+					if unary {
+						peerKind = "unary"
+					}
+					code, msg := peerError(proto, peerKind, rec)
+					r.Sample("recover_returns", map[string]any{"in": in, "peer_code": code, "peer_message": msg, "recovery_function_calls": handled})
+					if escaped != nil {
+						r.Fail(h.Failure{Key: "recover/panic-escaped", Family: "recover_returns", What: "the panic escaped ServeHTTP", Input: in, Actual: fmt.Sprint(escaped)})
+					} else if handled != 1 || code != "data_loss" {
+						r.Fail(h.Failure{Key: "recover/returned-error-not-delivered", Family: "recover_returns", What: "the client does not receive the error the recovery function returned (its code is the one errors.As finds in it: data_loss)", Input: in, Expected: "data_loss", Actual: fmt.Sprint("calls=", handled, " peer sees ", code, ": ", msg)})
+					}
+				}
+			}
+		}
+	}
+
 	// ---- calls that OVERLAP on one handler: B enters and waits; A returns normally; then B
 	// panics. Whether a call panicked is that call's business: B is recovered ----
 	for _, proto := range protos {
